@@ -9,7 +9,7 @@ R3 pool regrouping: generate writes and incorporate reads the same fields; the d
 """
 import ast
 
-from ..core import AnalysisError, norm, loc, walk_no_nested, attr_chain, call_name
+from ..core import AnalysisError, norm, loc, walk_no_nested, attr_chain, call_name, kwarg, find_calls, call_matches, receiver_name, assigned_from
 from ..cfg import CFG
 
 DELS = 'fim.slivers.delegations'
@@ -163,60 +163,153 @@ def run(prog, rep):
                     rep.violation('R2', loc(mod, n), 'Delegations.from_json', 'type/class pairing',
                                   'CAPACITY details must be rebuilt as Capacities and LABEL details as Labels')
     # from_json builds through the guarded API
-    ftxt = ast.unparse(fj)
-    rep.instance('R2', 'from_json builds through Delegation(...), set_details, add_delegations')
-    for need in ('Delegation(atype=atype, delegation_id=k, aformat=format, pool_id=pool_id)', 'd.set_details(caporlab)', 'ds.add_delegations(d)'):
-        if need not in ftxt:
-            rep.violation('R2', loc(mod, fj), 'Delegations.from_json', f'missing {need}',
-                          'decoding must rebuild each entry with its id, format and pool id through the guarded setters')
-
+    floops = [l for l in walk_no_nested(fj) if isinstance(l, ast.For) and isinstance(l.iter, ast.Call) and call_name(l.iter) == 'items']
+    if not floops or not isinstance(floops[0].target, ast.Tuple):
+        raise AnalysisError('Delegations.from_json: loop over the decoded entries not found')
+    kvar = floops[0].target.elts[0].id
+    dctor = find_calls(floops[0], 'Delegation', nested=True)
+    rep.instance('R2', f'from_json builds each entry with {norm(dctor[0], 100) if dctor else None}')
+    ok = len(dctor) == 1 and call_matches(dctor[0], kwargs={'delegation_id': ('name', kvar), 'atype': ('name', None), 'aformat': ('name', None), 'pool_id': ('name', None)})
+    sdet = find_calls(floops[0], 'set_details', nested=True)
+    addc = find_calls(floops[0], 'add_delegations', nested=True)
+    dvar_ = None
+    for n in ast.walk(floops[0]):
+        if isinstance(n, ast.Assign) and dctor and n.value is dctor[0]:
+            dvar_ = n.targets[0].id
+    ok = ok and dvar_ is not None and any(receiver_name(c) == dvar_ for c in sdet) and any(call_matches(c, args=[('name', dvar_)]) for c in addc)
+    if not ok:
+        rep.violation('R2', loc(mod, fj), 'Delegations.from_json', 'entry not rebuilt through Delegation(...), set_details, add_delegations',
+                      'decoding must rebuild each entry with its id, format and pool id through the guarded setters')
     # ---- R3 ----
     gen = pools.methods.get('generate_delegations_by_node_id')
     inc = pools.methods.get('incorporate_delegation')
-    gtxt, itxt = ast.unparse(gen), ast.unparse(inc)
-    pairs = [
-        ('pool definition keyed by the delegation id', "aformat=DelegationFormat.PoolDefinition, pool_id=pool.get_pool_id()", gtxt),
-        ('definition details from the pool', 'pd.set_details(pool.get_pool_details())', gtxt),
-        ('definition placed on the defining node', 'node = pool.get_defined_on()', gtxt),
-        ('reference on each node the pool applies to', 'for node in pool.get_defined_for()', gtxt),
-        ('reference format / pool id', 'aformat=DelegationFormat.PoolReference, pool_id=pool.get_pool_id()', gtxt),
-        ('both carry the delegation id', 'delegation_id=delegation_id', gtxt),
-        ('incorporate: definition -> defined_on', 'p.set_defined_on(node_id)', itxt),
-        ('incorporate: definition -> details', 'p.set_pool_details(d.get_details())', itxt),
-        ('incorporate: reference -> defined_for', 'p.add_defined_for(node_id)', itxt),
-        ('incorporate: delegation id recorded', 'p.set_delegation_id(delegation_id=d.get_delegation_id())', itxt),
-        ('incorporate: pool looked up by name', 'self.get_pool_by_id(pool_id=d.get_pool_name())', itxt),
-        ('incorporate: second definition rejected', 'if p.get_defined_on() is not None', itxt),
+    if gen is None or inc is None:
+        raise AnalysisError('Pools.generate_delegations_by_node_id / incorporate_delegation vanished')
+
+    def fmt_of(call):
+        v = kwarg(call, 'aformat')
+        ch = attr_chain(v) if v is not None else None
+        return ch[-1] if ch else None
+
+    # --- generate: for each (delegation id, pool): one definition on the defining node, one reference per other node
+    outer = [l for l in walk_no_nested(gen) if isinstance(l, ast.For) and isinstance(l.iter, ast.Call) and call_name(l.iter) == 'items']
+    if not outer or not isinstance(outer[0].target, ast.Tuple):
+        raise AnalysisError('generate_delegations_by_node_id: loop over the delegation index not found')
+    del_var = outer[0].target.elts[0].id
+    pool_loops = [l for l in ast.walk(outer[0]) if isinstance(l, ast.For) and l is not outer[0] and isinstance(l.target, ast.Name)
+                  and ast.unparse(l.iter) == ast.unparse(outer[0].target.elts[1])]
+    if not pool_loops:
+        raise AnalysisError('generate_delegations_by_node_id: loop over the pools of a delegation not found')
+    pool_var = pool_loops[0].target.id
+    ctor = find_calls(pool_loops[0], 'Delegation', nested=True)
+    defs = [c for c in ctor if fmt_of(c) == 'PoolDefinition']
+    refs = [c for c in ctor if fmt_of(c) == 'PoolReference']
+    pool_id_pat = lambda e: isinstance(e, ast.Call) and call_name(e) == 'get_pool_id' and receiver_name(e) == pool_var
+    checks = []
+    checks.append(('one definition per pool, keyed by the delegation id, carrying the pool id',
+                   len(defs) == 1 and call_matches(defs[0], kwargs={'delegation_id': ('name', del_var), 'pool_id': pool_id_pat})))
+    checks.append(('one reference per node the pool applies to, keyed by the delegation id, carrying the pool id',
+                   len(refs) == 1 and call_matches(refs[0], kwargs={'delegation_id': ('name', del_var), 'pool_id': pool_id_pat})))
+    ref_loop = None
+    if refs:
+        p = refs[0]
+        while p is not pool_loops[0]:
+            p = p._parent
+            if isinstance(p, ast.For):
+                ref_loop = p
+                break
+    checks.append(('references range over the nodes the pool is defined for',
+                   ref_loop is not None and isinstance(ref_loop.iter, ast.Call) and call_name(ref_loop.iter) == 'get_defined_for'
+                   and receiver_name(ref_loop.iter) == pool_var))
+    sd = [c for c in find_calls(pool_loops[0], 'set_details', nested=True)]
+    checks.append(('definition details come from the pool',
+                   len(sd) == 1 and sd[0].args and isinstance(sd[0].args[0], ast.Call) and call_name(sd[0].args[0]) == 'get_pool_details'
+                   and receiver_name(sd[0].args[0]) == pool_var and (ref_loop is None or not any(x is sd[0] for x in ast.walk(ref_loop)))))
+    on = [n for n in ast.walk(pool_loops[0]) if isinstance(n, ast.Assign) and isinstance(n.value, ast.Call) and call_name(n.value) == 'get_defined_on'
+          and receiver_name(n.value) == pool_var]
+    checks.append(('definition is placed on the node the pool is defined on', len(on) == 1 and (ref_loop is None or on[0].lineno < ref_loop.lineno)))
+    adds = find_calls(pool_loops[0], 'add_delegations', nested=True)
+    checks.append(('definition and references are added to the per-node delegations', len(adds) >= 2))
+    for what, ok in checks:
+        rep.instance('R3', f'generate_delegations_by_node_id: {what}: {ok}')
+        if not ok:
+            rep.violation('R3', loc(mod, gen), 'Pools.generate_delegations_by_node_id', what,
+                          f'turning pools into per-node delegations no longer satisfies: {what}')
+
+    # --- incorporate: definition -> defined_on + details + delegation id; reference -> defined_for + delegation id
+    ent_loops = [l for l in walk_no_nested(inc) if isinstance(l, ast.For) and isinstance(l.iter, ast.Call) and call_name(l.iter) in ('items', 'values')]
+    if not ent_loops:
+        raise AnalysisError('incorporate_delegation: loop over the delegation entries not found')
+    el = ent_loops[0]
+    dvar = el.target.elts[1].id if isinstance(el.target, ast.Tuple) else el.target.id
+    pvars = assigned_from(inc, lambda v: isinstance(v, ast.Call) and call_name(v) == 'get_pool_by_id')
+    lookups = find_calls(el, 'get_pool_by_id', nested=True)
+    node_param = [a.arg for a in inc.args.kwonlyargs + inc.args.args if a.arg != 'self'][0]
+    by_name = lookups and call_matches(lookups[0], args=[lambda e: isinstance(e, ast.Call) and call_name(e) == 'get_pool_name' and receiver_name(e) == dvar])
+    pv = pvars[0] if pvars else None
+
+    def on_pool(name):
+        return [c for c in find_calls(el, name, nested=True) if receiver_name(c) == pv]
+
+    def branch_of(call):
+        """'def' if the call is under the PoolDefinition test, 'ref' if in its else branch, None otherwise"""
+        p = call
+        while p is not el:
+            child = p
+            p = p._parent
+            if isinstance(p, ast.If) and 'PoolDefinition' in ast.unparse(p.test):
+                return 'def' if child in p.body else 'ref'
+        return None
+    checks = [
+        ('the pool is looked up by the pool name of the entry', bool(by_name)),
+        ('single-pool entries are skipped', any(isinstance(n, ast.If) and 'SinglePool' in ast.unparse(n.test) and
+                                                any(isinstance(x, ast.Continue) for x in n.body) for n in ast.walk(el))),
+        ('a definition records the defining node', any(branch_of(c) == 'def' and call_matches(c, args=[('name', node_param)]) for c in on_pool('set_defined_on'))),
+        ('a definition records the details of the entry',
+         any(branch_of(c) == 'def' and c.args and isinstance(c.args[0], ast.Call) and call_name(c.args[0]) == 'get_details' and receiver_name(c.args[0]) == dvar
+             for c in on_pool('set_pool_details'))),
+        ('a reference adds the node to the nodes the pool applies to', any(branch_of(c) == 'ref' and call_matches(c, args=[('name', node_param)]) for c in on_pool('add_defined_for'))),
+        ('definitions and references both record the delegation id of the entry',
+         {branch_of(c) for c in on_pool('set_delegation_id')
+          if any(isinstance(a, ast.Call) and call_name(a) == 'get_delegation_id' and receiver_name(a) == dvar for a in [k.value for k in c.keywords] + list(c.args))} >= {'def', 'ref'}),
+        ('a second definition of the same pool is rejected',
+         any(isinstance(n, ast.If) and any(isinstance(x, ast.Raise) for x in n.body) and
+             any(isinstance(c, ast.Call) and call_name(c) == 'get_defined_on' and receiver_name(c) == pv for c in ast.walk(n.test)) for n in ast.walk(el))),
     ]
-    for what, need, txt in pairs:
-        rep.instance('R3', what)
-        if need not in txt:
-            fn = gen if txt is gtxt else inc
-            rep.violation('R3', loc(mod, fn), f'Pools.{fn.name}', f'{what}: expected `{need}`',
-                          f'pool regrouping no longer carries this field in both directions ({what})')
-    if itxt.count('p.set_delegation_id(') < 2:
-        rep.violation('R3', loc(mod, inc), 'Pools.incorporate_delegation', 'delegation id not recorded for both formats',
-                      'the delegation id must be recorded from definitions and from references')
+    for what, ok in checks:
+        rep.instance('R3', f'incorporate_delegation: {what}: {ok}')
+        if not ok:
+            rep.violation('R3', loc(mod, inc), 'Pools.incorporate_delegation', what,
+                          f'reading per-node delegations back into pools no longer satisfies: {what}')
     # index rebuilt from scratch
     bi = pools.methods.get('build_index_by_delegation_id')
-    first = bi.body[0] if not isinstance(bi.body[0], ast.Expr) else bi.body[1]
+    body = [st for st in bi.body if not (isinstance(st, ast.Expr) and isinstance(st.value, ast.Constant))]
+    first = body[0]
     rep.instance('R3', f'build_index_by_delegation_id starts with {norm(first)}')
-    ok = isinstance(first, ast.Assign) and ast.unparse(first.targets[0]) == 'self.pools_by_delegation' and \
-        ast.unparse(first.value) in ('{}', 'dict()')
+    idx_attr = None
+    ok = isinstance(first, ast.Assign) and isinstance(first.targets[0], ast.Attribute) and ast.unparse(first.targets[0].value) == 'self' and \
+        ((isinstance(first.value, ast.Dict) and not first.value.keys) or (isinstance(first.value, ast.Call) and call_name(first.value) in ('dict', 'defaultdict')))
+    if ok:
+        idx_attr = first.targets[0].attr
     if not ok:
         rep.violation('R3', loc(mod, bi), 'Pools.build_index_by_delegation_id', 'index not reset unconditionally',
                       'the per-delegation index must be rebuilt from an empty dict on every call; otherwise re-indexing '
                       'after adding a pool or changing a delegation id lists pools twice or under a stale id')
-    btxt = ast.unparse(bi)
-    if 'pool.validate_pool()' not in btxt or 'for pool in self.pool_by_id.values()' not in btxt:
+    loops = [l for l in walk_no_nested(bi) if isinstance(l, ast.For)]
+    over_all = loops and 'pool_by_id' in ast.unparse(loops[0].iter)
+    validates = loops and any(call_name(c) == 'validate_pool' for c in ast.walk(loops[0]) if isinstance(c, ast.Call))
+    if not over_all or not validates:
         rep.violation('R3', loc(mod, bi), 'Pools.build_index_by_delegation_id', 'does not validate and index every pool',
                       'every pool must be validated and indexed')
     vp = pool.methods.get('validate_pool')
-    vtxt = ast.unparse(vp)
-    for need in ('self.delegation_id is None', 'self.get_defined_on() is None', 'self.get_defined_for()', 'self.get_pool_details() is None'):
-        rep.instance('R3', f'validate_pool tests {need}')
-        if need not in vtxt:
-            rep.violation('R3', loc(mod, vp), 'Pool.validate_pool', f'{need} not tested', 'an incomplete pool passes validation')
+    guards = [n for n in walk_no_nested(vp) if isinstance(n, ast.If) and any(isinstance(x, ast.Raise) for x in n.body)]
+    tested = ' ; '.join(ast.unparse(g.test) for g in guards)
+    for what, keys in (('delegation id', ('delegation_id',)), ('defining node', ('get_defined_on', 'on_')),
+                       ('nodes it applies to', ('get_defined_for', 'for_')), ('details', ('get_pool_details', 'pool_details'))):
+        okf = any(k in tested for k in keys)
+        rep.instance('R3', f'validate_pool rejects a pool without {what}: {okf}')
+        if not okf:
+            rep.violation('R3', loc(mod, vp), 'Pool.validate_pool', f'{what} not tested', 'an incomplete pool passes validation')
     # annotate: conflict check before any write
     arm = prog.cls(ARM)
     an = arm.methods.get('annotate_delegations_and_pools')
